@@ -133,14 +133,17 @@ Proof.
   - rewrite forallb_app, D, Hf. reflexivity.
 Qed.
 
-Lemma TInv_handle_error r k kd : TInv r -> TInv (handle_error tasks continue_ r k kd).
+Lemma TInv_handle_error_gen st r k kd : TInv r -> TInv (handle_error_gen tasks continue_ st r k kd).
 Proof.
-  intros [A B C D]. unfold handle_error. split; simpl.
+  intros [A B C D]. unfold handle_error_gen. split; simpl.
   - rewrite code_of_fail, A. reflexivity.
   - rewrite execs_app. simpl. rewrite app_nil_r. exact B.
   - apply p_fail. exact C.
   - rewrite forallb_app, D. reflexivity.
 Qed.
+
+Lemma TInv_handle_error r k kd : TInv r -> TInv (handle_error tasks continue_ r k kd).
+Proof. apply TInv_handle_error_gen. Qed.
 
 Definition plain_evs (evs : list event) : Prop :=
   forallb (fun e => negb (is_pair_ev e)) evs = true /\
@@ -199,7 +202,7 @@ Lemma select_task_execs r k b r1 :
 Proof.
   intros E. apply (select_task_pres (fun r0 => execs (r_tr r0) = execs (r_tr r))) with (r := r) (k := k) (b := b); auto.
   - intros r0 evs H (A & B & C). unfold emit. simpl. rewrite execs_app, C, app_nil_r. exact H.
-  - intros r0 k0 kd H. unfold handle_error. simpl. rewrite execs_app. simpl. rewrite app_nil_r. exact H.
+  - intros r0 k0 kd H. unfold handle_error, handle_error_gen. simpl. rewrite execs_app. simpl. rewrite app_nil_r. exact H.
 Qed.
 
 Lemma TInv_start r k : TInv r -> TInv (start_task tasks r k).
@@ -214,7 +217,7 @@ Qed.
 
 Lemma TInv_process r k : TInv r -> TInv (process_result tasks continue_ r k).
 Proof.
-  intros H. unfold process_result. destruct (t_outcome (get_task k)); auto; try apply TInv_handle_error; auto.
+  intros H. unfold process_result. destruct (t_outcome (get_task k)); auto; try apply TInv_handle_error; try apply TInv_handle_error_gen; auto.
   destruct H as [A B C D]. unfold emit, with_d. split; simpl.
   - rewrite code_of_noFail; auto.
   - rewrite execs_app. simpl. rewrite app_nil_r. exact B.
